@@ -112,6 +112,16 @@ def cases(tier):
                 for c2 in (consumer(0, 'iter'), consumer(0, 'get'), consumer(0, 'slow')):
                     for launch in ({'after': 1}, {'at': 2}, {'after': 0}):
                         out.append(program(p, [c1, c2], close, launch=launch))
+    # puts whose awaitable is made some time before the put is performed (`p = channel.put(x)` ... `await p`), also performed
+    # in another order than they were made: a message is broadcast when the put is performed
+    prep = [[['PUTPREP', 'ch', 'a0', 0], ['D', 1], ['TRY', [['PUT', 'ch', 'a0', 0]]]],
+            [['PUTPREP', 'ch', 'a0', 0], ['PUTPREP', 'ch', 'a1', 1], ['D', 1], ['TRY', [['PUT', 'ch', 'a1', 1]]], ['TRY', [['PUT', 'ch', 'a0', 0]]]],
+            [['PUTPREP', 'ch', 'a0', 0], ['TRY', [['PUT', 'ch', 'a1']]], ['D', 1], ['TRY', [['PUT', 'ch', 'a0', 0]]]],
+            [['PUTPREP', 'ch', 'a0', 0], ['D', 3], ['TRY', [['PUT', 'ch', 'a0', 0]]]]]       # performed after the close
+    for close in ('t2', 't4'):
+        for p in prep:
+            for c1, c2 in itertools.product(Cs[:8], [consumer(0, 'iter'), consumer(1, 'get'), consumer(1, 'iter'), consumer(2, 'iter')]):
+                out.append(program([p], [c1, c2], close))
     return out
 
 
@@ -261,6 +271,13 @@ def explore_case(program, tier):
     rep['counters']['boundaries_skipped_internal'] = skipped
     for k, v in pts:
         one(program, [{'k': k, 'kind': 'cancel', 'victim': v, 'token': 'x'}], 'cancel')
+    # a consumer that has already left is cancelled (teardown code cancelling all its tasks): nothing may change for the others
+    alive_at = {k: set(alive) for k, _, alive in bounds}
+    allpts, _ = F.cancel_points(ctx0, bounds, victims=victims, include_done=True)
+    for v in victims:
+        gone = [k for k, vv in allpts if vv == v and v not in alive_at[k] and any(r[0] == 'begin' and r[1] == v for r in ctx0.log)]
+        for k in sorted(set(gone[:2] + gone[-1:])):
+            one(program, [{'k': k, 'kind': 'cancel', 'victim': v, 'token': 'late'}], 'cancel-gone')
     positions = F.attack_positions(ctx0, 0)
     for t, j in positions:
         one(close_at(program, t, j), [], 'closepos')
